@@ -30,6 +30,12 @@ const shimSrc = `// Package verifshim holds the hook variables of the verificati
 // the build-time overlay; all hooks are nil (pass-through) unless a simulated world sets them.
 package verifshim
 
+import (
+	"io"
+	"io/fs"
+	"os"
+)
+
 // Yield, when set, is called at the instrumented scheduling points.
 var Yield func(site string)
 
@@ -39,7 +45,138 @@ func Y(site string) {
 		Yield(site)
 	}
 }
-`
+
+// OSFault, when set, is consulted before every redirected os call (op = function name, path =
+// its path argument).  A non-nil error makes the call fail with it without touching the disk.
+var OSFault func(op, path string) error
+
+// CopyFault, when set, is consulted before every redirected io.Copy: (n, err) with err != nil
+// copies at most n bytes and then returns err (a disk that fills up in the middle of a write).
+var CopyFault func() (int64, error)
+
+func osf(op, path string) error {
+	if OSFault != nil {
+		return OSFault(op, path)
+	}
+	return nil
+}
+
+func MkdirTemp(dir, pattern string) (string, error) {
+	if e := osf("MkdirTemp", dir); e != nil {
+		return "", e
+	}
+	return os.MkdirTemp(dir, pattern)
+}
+
+func Mkdir(name string, perm fs.FileMode) error {
+	if e := osf("Mkdir", name); e != nil {
+		return e
+	}
+	return os.Mkdir(name, perm)
+}
+
+func MkdirAll(path string, perm fs.FileMode) error {
+	if e := osf("MkdirAll", path); e != nil {
+		return e
+	}
+	return os.MkdirAll(path, perm)
+}
+
+func OpenFile(name string, flag int, perm fs.FileMode) (*os.File, error) {
+	if e := osf("OpenFile", name); e != nil {
+		return nil, e
+	}
+	return os.OpenFile(name, flag, perm)
+}
+
+func Create(name string) (*os.File, error) {
+	if e := osf("Create", name); e != nil {
+		return nil, e
+	}
+	return os.Create(name)
+}
+
+func WriteFile(name string, data []byte, perm fs.FileMode) error {
+	if e := osf("WriteFile", name); e != nil {
+		return e
+	}
+	return os.WriteFile(name, data, perm)
+}
+
+func Symlink(oldname, newname string) error {
+	if e := osf("Symlink", newname); e != nil {
+		return e
+	}
+	return os.Symlink(oldname, newname)
+}
+
+func Remove(name string) error {
+	if e := osf("Remove", name); e != nil {
+		return e
+	}
+	return os.Remove(name)
+}
+
+func RemoveAll(path string) error {
+	if e := osf("RemoveAll", path); e != nil {
+		return e
+	}
+	return os.RemoveAll(path)
+}
+
+func Copy(dst io.Writer, src io.Reader) (int64, error) {
+	if CopyFault != nil {
+		if n, e := CopyFault(); e != nil {
+			w, _ := io.CopyN(dst, src, n)
+			return w, e
+		}
+	}
+	return io.Copy(dst, src)
+}
+` + "\n"
+
+// osRedirect lists the files whose os.* / io.Copy calls are redirected to the shim, and the
+// functions concerned.
+var osRedirectFiles = []string{
+	"artifact/image/layerscanning/image/image.go",
+	"artifact/image/unpack/unpack.go",
+	"extractor/filesystem/filesystem.go",
+	"guidedremediation/internal/manifest/npm/packagejson.go",
+	"guidedremediation/internal/manifest/maven/pomxml.go",
+}
+
+var osRedirectFuncs = map[string]bool{"MkdirTemp": true, "Mkdir": true, "MkdirAll": true, "OpenFile": true, "Create": true,
+	"WriteFile": true, "Symlink": true, "Remove": true, "RemoveAll": true}
+
+// redirectOS rewrites os.F(...) (F in osRedirectFuncs) and io.Copy(...) to verifshim.F / Copy.
+func redirectOS(f *ast.File) int {
+	n := 0
+	ast.Inspect(f, func(nd ast.Node) bool {
+		se, ok := nd.(*ast.SelectorExpr)
+		if !ok {
+			return true
+		}
+		id, ok := se.X.(*ast.Ident)
+		if !ok || id.Obj != nil {
+			return true
+		}
+		if (id.Name == "os" && osRedirectFuncs[se.Sel.Name]) || (id.Name == "io" && se.Sel.Name == "Copy") {
+			se.X = ast.NewIdent("verifshim")
+			n++
+		}
+		return true
+	})
+	return n
+}
+
+func importsPkg(f *ast.File, path string) bool {
+	for _, im := range f.Imports {
+		if im.Path.Value == strconv.Quote(path) {
+			return true
+		}
+	}
+	return false
+}
 
 func die(format string, a ...any) {
 	fmt.Fprintf(os.Stderr, "instrument: "+format+"\n", a...)
@@ -136,6 +273,7 @@ func main() {
 		die("%v", err)
 	}
 	replace := map[string]string{}
+	redirected := 0
 
 	// 1. shim package
 	shim := filepath.Join(*outDir, "verifshim.go")
@@ -163,6 +301,36 @@ func main() {
 	os.WriteFile(cacheOut, buf.Bytes(), 0o644)
 	replace[cachePath] = cacheOut
 
+	// 2b. os.* / io.Copy redirection (tier 2 fault injection); pass-through unless hooks are set
+	for _, rel := range osRedirectFiles {
+		src := filepath.Join(*repo, rel)
+		fs2 := token.NewFileSet()
+		pf, err := parser.ParseFile(fs2, src, nil, parser.ParseComments)
+		if err != nil {
+			die("cannot parse %s: %v", src, err)
+		}
+		n := redirectOS(pf)
+		if n == 0 {
+			die("anchor missing: no redirectable os/io call found in %s (was the file refactored?)", src)
+		}
+		addImport(pf, "github.com/google/osv-scalibr/verifshim")
+		var b2 bytes.Buffer
+		if err := format.Node(&b2, fs2, pf); err != nil {
+			die("cannot print %s: %v", rel, err)
+		}
+		// keep the original imports used even if every use was redirected
+		if importsPkg(pf, "os") {
+			b2.WriteString("\nvar _ = os.ErrNotExist\n")
+		}
+		if importsPkg(pf, "io") {
+			b2.WriteString("\nvar _ io.Reader\n")
+		}
+		outp := filepath.Join(*outDir, strings.ReplaceAll(rel, "/", "__"))
+		os.WriteFile(outp, b2.Bytes(), 0o644)
+		replace[src] = outp
+		redirected += n
+	}
+
 	// 3. extras
 	if *extras != "" {
 		filepath.Walk(*extras, func(p string, info os.FileInfo, err error) error {
@@ -178,5 +346,5 @@ func main() {
 	if err := os.WriteFile(*jsonPath, b, 0o644); err != nil {
 		die("%v", err)
 	}
-	fmt.Printf("instrument: %d lock sites, %d wait sites, %d overlay entries\n", locks, waits, len(replace))
+	fmt.Printf("instrument: %d lock sites, %d wait sites, %d os/io calls redirected, %d overlay entries\n", locks, waits, redirected, len(replace))
 }
